@@ -1084,12 +1084,13 @@ result_t NumberDataType::readFromRawValue(unsigned int value,
     }
     if (!negative) {
       if (m_divisor < 0) {
-        *output << (static_cast<float>(value) * static_cast<float>(-m_divisor));
+        *output << fixed << setprecision(0)
+                << (static_cast<double>(value) * static_cast<double>(-m_divisor));
       } else if (m_divisor <= 1) {
         *output << value;
       } else {
         *output << setprecision(static_cast<int>(m_precision))
-                << fixed << (static_cast<float>(value) / static_cast<float>(m_divisor));
+                << fixed << (static_cast<double>(value) / static_cast<double>(m_divisor));
       }
       return RESULT_OK;
     }
@@ -1101,7 +1102,7 @@ result_t NumberDataType::readFromRawValue(unsigned int value,
   }
   if (m_divisor < 0) {
     *output << fixed << setprecision(0)
-            << (static_cast<float>(signedValue) * static_cast<float>(-m_divisor));
+            << (static_cast<double>(signedValue) * static_cast<double>(-m_divisor));
   } else if (m_divisor <= 1) {
     if (hasFlag(FIX) && hasFlag(BCD)) {
       if (outputFormat & OF_JSON) {
@@ -1114,7 +1115,7 @@ result_t NumberDataType::readFromRawValue(unsigned int value,
     *output << signedValue << setw(0);
   } else {
     *output << setprecision(static_cast<int>(m_precision))
-            << fixed << (static_cast<float>(signedValue) / static_cast<float>(m_divisor));
+            << fixed << (static_cast<double>(signedValue) / static_cast<double>(m_divisor));
   }
   return RESULT_OK;
 }
